@@ -78,6 +78,19 @@ func (n *node[T]) SELF() int {
 }
 
 func useSELF(n *node[int]) int { return n.SELF() }`},
+	{"generic-type-method-other-instantiation", `type node[T any] struct {
+	next *node[T]
+	alt  *node[int]
+}
+
+func (n *node[T]) SELF() int {
+	if n == nil {
+		return 0
+	}
+	return 1 + n.alt.SELF()
+}
+
+func useSELF(n *node[string]) int { return n.SELF() }`},
 	{"method-value", `type rec struct{ k int }
 
 func (r *rec) SELF(n int) int {
@@ -230,6 +243,57 @@ var RenamePairs = []struct{ ID, A, B string }{
 	}
 	return n
 }`},
+	// parameter names inside func types that sit inside a slice / map / pointer type, and inside the
+	// signature of a function literal
+	{"func-type-inside-composite-types", `func Chain(fs []func(x int) int, m map[string]func(acc int, s string) int, v int) int {
+	g := func(hs []func(x int) int, w int) int {
+		for _, h := range hs {
+			w = h(w)
+		}
+		return w
+	}
+	for _, f := range fs {
+		v = f(v)
+	}
+	if h, ok := m["k"]; ok {
+		v = h(v, "k")
+	}
+	return g(fs, v)
+}`, `func Chain(fs []func(y int) int, m map[string]func(total int, key string) int, v int) int {
+	g := func(hs []func(z int) int, w int) int {
+		for _, h := range hs {
+			w = h(w)
+		}
+		return w
+	}
+	for _, f := range fs {
+		v = f(v)
+	}
+	if h, ok := m["k"]; ok {
+		v = h(v, "k")
+	}
+	return g(fs, v)
+}`},
+	// the name of a type parameter
+	{"type-parameter-name", `func Fold[T any](s []T, f func(acc int, v T) int) int {
+	g := func(t T, n int) int { return f(n, t) }
+	n := 0
+	for _, v := range s {
+		n = g(v, n)
+	}
+	return n
+}
+
+func useFold() int { return Fold([]string{"a"}, func(acc int, v string) int { return acc + len(v) }) }`, `func Fold[Elem any](s []Elem, f func(acc int, v Elem) int) int {
+	g := func(t Elem, n int) int { return f(n, t) }
+	n := 0
+	for _, v := range s {
+		n = g(v, n)
+	}
+	return n
+}
+
+func useFold() int { return Fold([]string{"a"}, func(acc int, v string) int { return acc + len(v) }) }`},
 }
 
 // RenderPair returns an analysable file holding one version of a rename pair.
